@@ -10,6 +10,12 @@
 //!   rbv c11 masks --seed S --n N         setup_masks_inner with random mask arrays
 //!   rbv c11 types                        every code point: table type, gc flag, final joining type, as runs
 //!   rbv c11 run PRE TEXT POST            one sequence (comma separated hex code points, `-` for empty)
+//!   rbv c11 api --script arab|syrc --maxlen L [--nctx 9|73]
+//!                                        the same enumeration through the PUBLIC API (`rustybuzz::shape`) on a generated
+//!                                        font whose isol/fina/fin2/fin3/medi/med2/init features map every representative
+//!                                        to a distinct glyph per form; the form index read off the glyph ids is packed
+//!                                        like the actions of `exh` (7 = nominal glyph, no feature applied)
+//!   rbv c11 apirun SCRIPT PRE TEXT POST  one sequence through the public API
 use crate::util::*;
 use rustybuzz::verif::joining as hook;
 
@@ -40,8 +46,10 @@ pub fn run(args: &[String]) {
         Some("masks") => masks(args),
         Some("types") => types(),
         Some("run") => run_one(args),
+        Some("api") => api(args),
+        Some("apirun") => api_run(args),
         _ => {
-            eprintln!("c11 reps|feat|exh|random|masks|types|run");
+            eprintln!("c11 reps|feat|exh|random|masks|types|run|api|apirun");
             std::process::exit(2)
         }
     }
@@ -331,4 +339,212 @@ fn run_one(args: &[String]) {
         Err(c) => (format!("panic {}", c), String::new()),
     };
     println!("ran {} ; {} ; {} ; {} ; {}", cls(&pre), cls(&text), cls(&post), obs, feats);
+}
+
+// ------------------------------------------------------------------------------------------------
+// public API on a generated font
+
+/// Feature order of the generated font: form index f <-> API_TAGS[f]; glyph of (representative i, form f) = 9 + 7*i + f,
+/// nominal glyph of representative i = 1 + i.
+pub const API_TAGS: [[u8; 4]; 7] = [*b"isol", *b"fina", *b"fin2", *b"fin3", *b"medi", *b"med2", *b"init"];
+
+fn api_font() -> Vec<u8> {
+    use crate::fontgen::*;
+    let mut spec = FontSpec::basic(9 + 56);
+    let mut cmap: Vec<(u32, u16)> = REPS.iter().enumerate().map(|(i, (c, _))| (*c as u32, 1 + i as u16)).collect();
+    cmap.sort();
+    spec.cmap = cmap;
+    let lookups: Vec<Lookup<SubstSubtable>> = (0..7u16)
+        .map(|f| {
+            Lookup::one(SubstSubtable::Single2 {
+                coverage: Coverage::Glyphs((1..=8).collect()),
+                substitutes: (0..8u16).map(|i| 9 + 7 * i + f).collect(),
+            })
+        })
+        .collect();
+    // feature records sorted by tag, each pointing at the lookup of its form
+    let mut feats: Vec<(Tag, Vec<u16>)> = (0..7).map(|f| (API_TAGS[f], vec![f as u16])).collect();
+    feats.sort();
+    let mut layout = Layout::with_features(feats, lookups);
+    let all = LangSys { required_feature: None, feature_indices: (0..7).collect() };
+    layout.scripts = [*b"DFLT", *b"arab", *b"syrc"]
+        .iter()
+        .map(|t| ScriptRecord { tag: *t, default_langsys: Some(all.clone()), langsys: Vec::new() })
+        .collect();
+    spec.gsub = Some(layout);
+    let problems = check(&spec);
+    if !problems.is_empty() {
+        eprintln!("c11 api: font spec problems: {:?}", problems);
+    }
+    build(&spec)
+}
+
+fn rep_index(c: char) -> Option<usize> {
+    REPS.iter().position(|(r, _)| *r == c)
+}
+
+/// Shape through the public API; per character of `text` the form index (0..6, 7 = nominal glyph) or an error text.
+fn api_forms(face: &rustybuzz::Face, script: rustybuzz::Script, pre: &[char], text: &[char], post: &[char]) -> Result<Vec<u8>, String> {
+    let mut b = rustybuzz::UnicodeBuffer::new();
+    for (i, c) in text.iter().enumerate() {
+        b.add(*c, i as u32);
+    }
+    b.set_pre_context(&pre.iter().collect::<String>());
+    b.set_post_context(&post.iter().collect::<String>());
+    b.set_direction(rustybuzz::Direction::RightToLeft);
+    b.set_script(script);
+    b.set_cluster_level(rustybuzz::BufferClusterLevel::Characters);
+    let gb = rustybuzz::shape(face, &[], b);
+    let infos = gb.glyph_infos();
+    if infos.len() != text.len() {
+        return Err(format!("{} glyphs for {} characters", infos.len(), text.len()));
+    }
+    let mut forms = vec![255u8; text.len()];
+    for info in infos {
+        let k = info.cluster as usize;
+        if k >= text.len() || forms[k] != 255 {
+            return Err(format!("cluster {} unexpected", info.cluster));
+        }
+        let g = info.glyph_id;
+        let (rep, form) = if (1..=8).contains(&g) {
+            ((g - 1) as usize, 7u8)
+        } else if (9..65).contains(&g) {
+            (((g - 9) / 7) as usize, ((g - 9) % 7) as u8)
+        } else {
+            return Err(format!("glyph {} unexpected", g));
+        };
+        if rep_index(text[k]) != Some(rep) {
+            return Err(format!("glyph {} at cluster {} belongs to another character", g, k));
+        }
+        forms[k] = form;
+    }
+    Ok(forms)
+}
+
+fn script_of(name: &str) -> rustybuzz::Script {
+    match name {
+        "syrc" => rustybuzz::script::SYRIAC,
+        _ => rustybuzz::script::ARABIC,
+    }
+}
+
+fn api(args: &[String]) {
+    let maxlen = arg_u64(args, "--maxlen", 3) as usize;
+    let nctx = arg_u64(args, "--nctx", 9) as usize;
+    let chunk = arg_u64(args, "--chunk", 32768).max(20);
+    let sname = arg_str(args, "--script").unwrap_or("syrc").to_string();
+    let bytes = std::sync::Arc::new(api_font());
+    if rustybuzz::Face::from_slice(&bytes, 0).is_none() {
+        println!("anomaly generated font rejected");
+        return;
+    }
+    for (f, t) in API_TAGS.iter().enumerate() {
+        println!("apifeat {} {}", f, u32::from_be_bytes(*t));
+    }
+    let mut jobs: Vec<(usize, usize, usize, u64, u64)> = Vec::new();
+    for n in 0..=maxlen {
+        let total = 8u64.pow(n as u32);
+        for pre in 0..nctx {
+            for post in 0..nctx {
+                let mut s = 0;
+                while s < total {
+                    let c = chunk.min(total - s);
+                    jobs.push((n, pre, post, s, c));
+                    s += c;
+                }
+            }
+        }
+    }
+    let nthreads = std::thread::available_parallelism().map(|x| x.get()).unwrap_or(4).min(16);
+    let jobs = std::sync::Arc::new(jobs);
+    let next = std::sync::Arc::new(std::sync::atomic::AtomicUsize::new(0));
+    let results = std::sync::Arc::new(std::sync::Mutex::new(vec![(String::new(), 0u64); jobs.len()]));
+    let mut hs = Vec::new();
+    for _ in 0..nthreads {
+        let (jobs, next, results, bytes, sname) = (jobs.clone(), next.clone(), results.clone(), bytes.clone(), sname.clone());
+        hs.push(std::thread::spawn(move || {
+            let face = rustybuzz::Face::from_slice(&bytes, 0).unwrap();
+            let script = script_of(&sname);
+            loop {
+                let k = next.fetch_add(1, std::sync::atomic::Ordering::SeqCst);
+                if k >= jobs.len() {
+                    break;
+                }
+                let (n, pre, post, start, count) = jobs[k];
+                let (p, q) = (ctx(pre), ctx(post));
+                let mut out = String::new();
+                let mut words: Vec<u64> = Vec::new();
+                let (mut cur, mut fill, mut joined) = (0u64, 0, 0u64);
+                for idx in start..start + count {
+                    let t = seq_of(n, idx);
+                    let r = std::panic::catch_unwind(std::panic::AssertUnwindSafe(|| api_forms(&face, script, &p, &t, &q)));
+                    let forms = match r {
+                        Ok(Ok(f)) => f,
+                        Ok(Err(e)) => {
+                            out.push_str(&format!("anomaly {} {} {} {} {}\n", n, pre, post, idx, e));
+                            vec![0; n]
+                        }
+                        Err(_) => {
+                            out.push_str(&format!("panic {} {} {} {}\n", n, pre, post, idx));
+                            vec![0; n]
+                        }
+                    };
+                    if forms.iter().any(|&a| (1..=6).contains(&a)) {
+                        joined += 1;
+                    }
+                    for j in 0..n {
+                        cur |= ((forms[j] & 7) as u64) << (3 * fill);
+                        fill += 1;
+                        if fill == 20 {
+                            words.push(cur);
+                            cur = 0;
+                            fill = 0;
+                        }
+                    }
+                }
+                if fill > 0 {
+                    words.push(cur);
+                }
+                out.push_str(&format!("blk {} {} {} {} {}", n, pre, post, start, count));
+                for w in words {
+                    out.push(' ');
+                    out.push_str(&w.to_string());
+                }
+                out.push('\n');
+                results.lock().unwrap()[k] = (out, joined);
+            }
+        }));
+    }
+    for h in hs {
+        let _ = h.join();
+    }
+    let res = results.lock().unwrap();
+    let (mut total, mut joined) = (0u64, 0u64);
+    for (k, r) in res.iter().enumerate() {
+        print!("{}", r.0);
+        total += jobs[k].4;
+        joined += r.1;
+    }
+    println!("exh-summary cases={} joined={}", total, joined);
+}
+
+/// `apirun SCRIPT PRE TEXT POST` -> `apiran <feature tag per character | error>`
+fn api_run(args: &[String]) {
+    let sname = args.get(1).map(|s| s.as_str()).unwrap_or("syrc");
+    let pre = parse_cps(args.get(2).map(|s| s.as_str()).unwrap_or("-"));
+    let text = parse_cps(args.get(3).map(|s| s.as_str()).unwrap_or("-"));
+    let post = parse_cps(args.get(4).map(|s| s.as_str()).unwrap_or("-"));
+    let bytes = api_font();
+    let face = rustybuzz::Face::from_slice(&bytes, 0).unwrap();
+    match catch(std::panic::AssertUnwindSafe(|| api_forms(&face, script_of(sname), &pre, &text, &post))) {
+        Ok(Ok(f)) => {
+            let names: Vec<String> = f
+                .iter()
+                .map(|x| if (*x as usize) < 7 { String::from_utf8_lossy(&API_TAGS[*x as usize]).to_string() } else { "-".to_string() })
+                .collect();
+            println!("apiran {}", names.join(" "));
+        }
+        Ok(Err(e)) => println!("apiran error {}", e),
+        Err(c) => println!("apiran panic {}", c),
+    }
 }
